@@ -7,7 +7,7 @@ from penman.tree import Tree
 
 from pv.gen import models, trees
 from pv.harness import Enum, Hyp
-from pv.props.common import churn_models, fmt, noise_calls, short, tree_classes, tree_stats
+from pv.props.common import churn_models, model_arg, fmt, noise_calls, short, tree_classes, tree_stats
 from pv.ref import interp
 from pv.ref.role import build_model
 
@@ -37,7 +37,7 @@ def check(case):
     m = build_model(spec, fresh=fresh)
     noise_calls(m, node)
     f = []
-    g = layout.interpret(Tree(node), m)
+    g = layout.interpret(Tree(node), model_arg(m, spec, len(case['tree'][1]) // 2))
     rd = interp.interpret(node, spec)
     if g.top != rd.top:
         f.append(('top', '%s: top %r, reference %r' % (fmt(node), g.top, rd.top)))
@@ -76,7 +76,7 @@ def check(case):
     # the same reading through text
     if case.get('text'):
         s = penman.format(Tree(node), indent=None)
-        g2 = penman.decode(s, model=m)
+        g2 = penman.decode(s, model=model_arg(m, spec, len(s)))
         if g2.triples != rd.triples or g2.top != rd.top:
             f.append(('decode-text', '%s: %s, reference %s' % (s, short(g2.triples), short(rd.triples))))
     return f
